@@ -203,7 +203,9 @@ func VerifC11Crash(op int, pre int, mcap int) {
 	vrf.CoverIf("crashed-mid-operation", crashed)
 	vrf.CoverIf("operation-completed", !crashed)
 
-	// restart on the directory as it stands
+	// restart on the directory as it stands: a new process (its id counter starts from 0 again)
+	countChannel = make(chan int, 10)
+	go countGenerator(countChannel)
 	st2, nerr := New(cfg, extension.NewHost())
 	vrf.Assert("reopen-noerr", nerr == nil)
 	if nerr != nil {
